@@ -20,7 +20,9 @@
 EXTENDS Integers, Sequences, FiniteSets, TLC, SequencesExt
 
 CONSTANTS Unit,      \* 1 or 65536
-          MaxV       \* bound on every number, in units (overflow guard)
+          MaxV,      \* bound on every number on the operand stack, in units
+          MaxPos     \* bound on accumulated values (pen position, stem edges), in units; the pen may
+                     \* leave the operand range: positions are sums of operands, not operands
 
 MaxStack == 48
 MaxDepth == 10
@@ -50,6 +52,7 @@ M0 == [stack |-> <<>>, path |-> <<>>, hs |-> <<>>, vs |-> <<>>,
        w |-> <<>>,           \* <<>>: default width, <<v>>: nominal + v
        x |-> 0, y |-> 0, moved |-> FALSE,
        tdef |-> {}, trans |-> [i \in 0..31 |-> 0],
+       indet |-> FALSE,      \* a transient cell was read before this charstring wrote it
        st |-> "run"]         \* run | done | error | unmodelled
 
 Err(m)  == [m EXCEPT !.st = "error"]
@@ -107,9 +110,9 @@ Arity(op, n) ==
     [] op = "hflex1" -> n = 9
     [] op = "flex1"  -> n = 11
 
-\* absolute path commands from relative segments; ok = every coordinate stayed within MaxV
+\* absolute path commands from relative segments; ok = every coordinate stayed within MaxPos
 ApplySegs(x0, y0, segs) ==
-  LET In(v) == Abs(v) <= MaxV
+  LET In(v) == Abs(v) <= MaxPos
       step(acc, s) ==
         IF ~acc.ok THEN acc
         ELSE IF s[1] = "l"
@@ -128,7 +131,7 @@ PrefixSums(a) ==
   FoldLeft(LAMBDA acc, v :
              IF ~acc.ok THEN acc
              ELSE LET e == acc.last + v IN
-                  [last |-> e, ok |-> Abs(e) <= MaxV, out |-> Append(acc.out, e)],
+                  [last |-> e, ok |-> Abs(e) <= MaxPos, out |-> Append(acc.out, e)],
            [last |-> 0, ok |-> TRUE, out |-> <<>>], a)
 
 \* ------------------------------------- arithmetic, stack, storage, conditional
@@ -182,7 +185,13 @@ DoArith(m, op) ==
        [] op = "get"  -> IF ~IsWhole(a) THEN Unm(m)
                          ELSE LET i == a \div Unit IN
                               IF i < 0 \/ i > 31 THEN Err(m)
-                              ELSE IF i \notin m.tdef THEN Unm(m)   \* undefined by TN5177
+                              \* TN5177: the transient array lives for ONE charstring; a cell
+                              \* not yet written by this charstring has no defined value.  The
+                              \* machine goes on with a placeholder and marks the result
+                              \* indeterminate: no value is specified for such a glyph, only that
+                              \* it is a function of the charstring alone (Type2.tla, NextGlyph).
+                              ELSE IF i \notin m.tdef
+                                THEN [m EXCEPT !.stack = Append(r1, 0), !.indet = TRUE]
                               ELSE S(Append(r1, m.trans[i]))
        [] op = "and"  -> S(Append(r2, Bool(b # 0 /\ a # 0)))
        [] op = "or"   -> S(Append(r2, Bool(b # 0 \/ a # 0)))
@@ -204,7 +213,7 @@ DoOp(m, t) ==
          IN IF ~(n = need \/ hasW) THEN Err(m)
             ELSE LET dx == IF op = "vmoveto" THEN 0 ELSE a[1]
                      dy == IF op = "rmoveto" THEN a[2] ELSE IF op = "vmoveto" THEN a[1] ELSE 0
-                 IN IF Abs(m.x + dx) > MaxV \/ Abs(m.y + dy) > MaxV THEN Unm(m)
+                 IN IF Abs(m.x + dx) > MaxPos \/ Abs(m.y + dy) > MaxPos THEN Unm(m)
                     ELSE [m EXCEPT !.stack = <<>>, !.wset = TRUE, !.w = IF hasW THEN <<s[1]>> ELSE @,
                                    !.x = @ + dx, !.y = @ + dy, !.moved = TRUE,
                                    !.path = Append(@, <<"m", m.x + dx, m.y + dy>>)]
